@@ -25,17 +25,34 @@ RULE = ("fields: rendered emulsions + dyadic noise on Cartesian grids d=1..3 (3.
 
 
 def make_field(rng: random.Random, kind=None):
-    from pde import CartesianGrid, ScalarField
+    from pde import CartesianGrid, ScalarField, PolarSymGrid, SphericalSymGrid, CylindricalSymGrid
     from droplets import DiffuseDroplet, Emulsion
-    dim = rng.choice([1, 2, 2, 3])
-    shape = [rng.randrange(3, 11 if dim < 3 else 7) for _ in range(dim)]
-    per = [rng.random() < 0.5 for _ in range(dim)]
-    grid = CartesianGrid([(0.0, float(n)) for n in shape], shape, periodic=per)
+    fam = rng.choice(["cart", "cart", "cart", "polar", "spherical", "cyl"])
+    if fam == "cart":
+        dim = rng.choice([1, 2, 2, 3])
+        shape = [rng.randrange(3, 11 if dim < 3 else 7) for _ in range(dim)]
+        per = [rng.random() < 0.5 for _ in range(dim)]
+        grid = CartesianGrid([(0.0, float(n)) for n in shape], shape, periodic=per)
+    elif fam == "polar":
+        n = rng.randrange(3, 12)
+        grid = PolarSymGrid(float(n), n)
+    elif fam == "spherical":
+        n = rng.randrange(3, 12)
+        grid = SphericalSymGrid(float(n), n)
+    else:
+        nr, nz = rng.randrange(2, 6), rng.randrange(3, 9)
+        grid = CylindricalSymGrid(float(nr), (0.0, float(nz)), (nr, nz), periodic_z=rng.random() < 0.5)
+    shape = list(grid.shape)
     kind = kind or rng.choice(["drops", "drops", "noise", "mixed", "const"])
     data = np.zeros(shape)
     if kind in ("drops", "mixed"):
-        em = Emulsion([DiffuseDroplet([rng.uniform(0, n) for n in shape], rng.uniform(0.6, 2.5), rng.choice([0.0, 0.5, 1.0]))
-                       for _ in range(rng.randrange(1, 4))])
+        if fam == "cart":
+            em = Emulsion([DiffuseDroplet([rng.uniform(0, n) for n in shape], rng.uniform(0.6, 2.5), rng.choice([0.0, 0.5, 1.0]))
+                           for _ in range(rng.randrange(1, 4))])
+        elif fam == "cyl":
+            em = Emulsion([DiffuseDroplet([0, 0, rng.uniform(0, shape[1])], rng.uniform(0.6, 2.5), rng.choice([0.0, 0.5, 1.0]))])
+        else:
+            em = Emulsion([DiffuseDroplet([0.0] * grid.dim, rng.uniform(0.6, shape[0] - 0.5), rng.choice([0.0, 0.5, 1.0]))])
         data = em.get_phasefield(grid).data
     if kind in ("noise", "mixed"):
         nrng = np.random.default_rng(rng.randrange(1 << 30))
@@ -43,7 +60,7 @@ def make_field(rng: random.Random, kind=None):
     if kind == "const":
         data = data + rng.randrange(-4, 5) / 4.0
     data = np.round(data * 1024) / 1024.0  # coarse dyadic
-    return ScalarField(grid, data), kind
+    return ScalarField(grid, data), kind + ":" + fam
 
 
 class MaskRecorder:
@@ -180,7 +197,7 @@ def check(ctx: vlib.Ctx) -> int:
                 vlib.qlit(mn_r), vlib.listlit(radii, vlib.qlit), vlib.listlit(keep, lambda k: f"{k}%nat")))
             f = oracle_one(field, rule, mn_r)
             if f:
-                fails.append({"what": f, "input": {"data": flat, "shape": list(field.grid.shape),
+                fails.append({"what": f, "input": {"data": flat, "shape": list(field.grid.shape), "grid": repr(field.grid),
                                                    "periodic": list(map(bool, field.grid.periodic)), "rule": str(rule), "minimal_radius": mn_r}})
             if i % 3 == 0:
                 a, b = 2.0 ** rng.randrange(-3, 4), rng.randrange(-16, 17) / 4.0
@@ -221,7 +238,11 @@ def replay(path: str) -> int:
     print(json.dumps(obj, indent=1)[:1500])
     if "data" in inp:
         shape = inp["shape"]
-        grid = CartesianGrid([(0.0, float(n)) for n in shape], shape, periodic=inp.get("periodic", False))
+        if "grid" in inp and not inp["grid"].startswith("CartesianGrid"):
+            import pde
+            grid = eval(inp["grid"], {k: getattr(pde, k) for k in ("PolarSymGrid", "SphericalSymGrid", "CylindricalSymGrid")})
+        else:
+            grid = CartesianGrid([(0.0, float(n)) for n in shape], shape, periodic=inp.get("periodic", False))
         field = ScalarField(grid, np.array(inp["data"]).reshape(shape))
         rule = inp["rule"]
         rule = rule if rule in RULES else float(rule)
